@@ -134,7 +134,8 @@ impl AtomicBuffer {
 
     #[inline]
     pub fn bounds_check(&self, idx: Index, len: Index) {
-        assert!((idx + len) <= self.len)
+        // negative offsets / lengths and idx + len overflow are failures, not wrap-arounds
+        assert!(idx >= 0 && len >= 0 && (idx as i64 + len as i64) <= self.len as i64)
     }
 
     #[inline]
